@@ -10,9 +10,15 @@
    Part B  [raw_vs_norm]: for one input, the normalising-mode tokens are the
            [norm_word] images of the raw-mode non-EOL tokens on the same
            lines, and the Copyright pseudo matches are the same, provided the
-           raw-mode run flushes only good word buffers ([flushes_ok]: html
-           unescaping leaves the word alone, and the word is not a capitalised
-           "Https.."/"HTTPS..").  Hyphen-newline deferral is ALLOWED: the two
+           raw-mode run flushes only good word buffers ([flushes_ok], see
+           [word_flush_ok]: up to case html unescaping does not depend on the
+           case of the first rune, lower-casing the unescaped word creates no
+           "https", and is invisible to the ignorable expressions on its
+           non-initial runes).  Since flushBuf lower-cases what
+           html.UnescapeString produced when normalising, words CHANGED by
+           unescaping are allowed ("&#65;bc" -> "Abc" / "abc");
+           [flushes_ok_old]: the predicate is implied by the one used before
+           that "fix:".  Hyphen-newline deferral is ALLOWED: the two
            runs move in lockstep.  The ignorable-notice decisions are PROVED
            equal (the three expressions are case-insensitive).
            [raw_tok_good], [raw_mono]: for EVERY input the raw-mode tokens have
@@ -28,9 +34,14 @@
      (c) a cleaned word whose lower-casing contains "https"   [has_https]
    and two found while proving:
      (c') a word buffer "Https.."/"HTTPS.." (first rune changed by ToLower):
-          Part B fails for it (the property itself may still hold)  [cap_https]
-     (e) a word changed by html.UnescapeString (e.g. "&#65;bc" -> "Abc": the
-          unescaped runes are never lower-cased; the property FAILS) [unesc_fix]
+          Part B fails for it (the property itself may still hold)
+                                                  [https_stable, cap_https]
+     (e) a word changed by html.UnescapeString ("&#65;bc" -> "Abc"): FIXED in
+          the code (flushBuf lower-cases the unescaped word when normalising),
+          the property holds and the theorem applies                 [exc_e]
+     (e') what is left of it: html.UnescapeString produces, inside a word, a
+          rune whose lower-casing the ignorable expressions can see (U+0130):
+          Part B fails (the property itself may still hold)   [ci_tail, exc_e_ci]
 
    All table facts used are the fields of [tables_ok], proved for the concrete
    tables [TokInv.T0] and [TokWF.T1].  Stdlib only, no axioms. *)
@@ -138,10 +149,14 @@ Definition pm_id (T : tables) (c : rune) : bool :=
 Definition wchar_ok (T : tables) (c : rune) : bool :=
   negb (N.eqb c 10) && negb (is_space T c) && pm_id T c && negb (N.eqb c 38).
 
-(* the runes of the (?i) literals of the three ignorableTexts expressions:
-   "copyright ", "(c) ", "[yyyy]", "copyright (c) [dates of first publication]" *)
-Definition pat_runes : list rune :=
-  [99;111;112;121;114;105;103;104;116;32;40;41;91;93;100;97;101;115;102;117;98;108;110].
+(* the runes of the (?i) literals of the three ignorableTexts expressions
+   ("copyright ", "(c) ", "[yyyy]", "copyright (c) [dates of first
+   publication]") that stand first or after a blank: c ( [ o f p.  Only these
+   can face the first rune of a word, the only rune on which the two modes
+   differ unless html.UnescapeString put an upper-case rune inside the word
+   (then [ci_same] is asked of that rune, per word).  (For the others the hypothesis would be false for Unicode:
+   ToLower(U+0130) = 'i' but (?i)i does not match U+0130.) *)
+Definition init_runes : list rune := [99; 40; 91; 111; 102; 112].
 
 Record tables_ok (T : tables) : Prop := {
   tk_lower_idem : forall c, to_lower T (to_lower T c) = to_lower T c;
@@ -149,9 +164,8 @@ Record tables_ok (T : tables) : Prop := {
   tk_lower_digit : forall c, is_digit T (to_lower T c) = is_digit T c;
   tk_digit_fix : forall c, is_digit T c = true -> to_lower T c = c;
   tk_lower_mark : forall c k, In k [10; 38; 41; 45; 46; 58] -> (to_lower T c = k <-> c = k);
-  tk_lower_ci : forall c p, In p pat_runes -> ci_eq p (to_lower T c) = ci_eq p c;
+  tk_lower_ci : forall c p, In p init_runes -> ci_eq p (to_lower T c) = ci_eq p c;
   tk_lower_adigit : forall c, ascii_digit (to_lower T c) = ascii_digit c;
-  tk_lower_az : forall c, ci_az (to_lower T c) = ci_az c;
   tk_lower_http : to_lower T 104 = 104 /\ to_lower T 116 = 116 /\ to_lower T 112 = 112;
   tk_letter_ok : forall c, is_letter T c = true -> wchar_ok T c = true;
   tk_digit_ok : forall c, is_digit T c = true -> wchar_ok T c = true;
@@ -188,10 +202,9 @@ Proof.
   - intros c. table_fact.
   - intros c. table_fact.
   - intros c k Hk. cbn in Hk. in_cases Hk; table_fact; split; intros; lia.
-  - intros c p Hp. unfold pat_runes in Hp. cbn [In] in Hp. unfold ci_eq, ascii_lower.
+  - intros c p Hp. unfold init_runes in Hp. cbn [In] in Hp. unfold ci_eq, ascii_lower.
     in_cases Hp; table_fact.
   - intros c. unfold ascii_digit. table_fact.
-  - intros c. unfold ci_az, ascii_lower. table_fact.
   - repeat split.
   - intros c. unfold wchar_ok, pm_id. table_fact.
   - intros c. unfold wchar_ok, pm_id. table_fact.
@@ -214,10 +227,9 @@ Proof.
   - intros c. unfold TokWF.T1, is_upper0. table_fact.
   - intros c. unfold TokWF.T1, is_upper0. table_fact.
   - intros c k Hk. cbn in Hk. unfold TokWF.T1, is_upper0. in_cases Hk; table_fact; split; intros; lia.
-  - intros c p Hp. unfold pat_runes in Hp. cbn [In] in Hp. unfold ci_eq, ascii_lower, TokWF.T1, is_upper0.
+  - intros c p Hp. unfold init_runes in Hp. cbn [In] in Hp. unfold ci_eq, ascii_lower, TokWF.T1, is_upper0.
     in_cases Hp; table_fact.
   - intros c. unfold ascii_digit, TokWF.T1, is_upper0. table_fact.
-  - intros c. unfold ci_az, ascii_lower, TokWF.T1, is_upper0. table_fact.
   - repeat split.
   - intros c. unfold wchar_ok, pm_id, TokWF.T1, is_upper0, is_lower0, TokWF.in_runes. table_fact.
   - intros c. unfold wchar_ok, pm_id, TokWF.T1, TokWF.in_runes. table_fact.
@@ -242,8 +254,8 @@ Ltac fields :=
        set_bufs set_line set_flags push_tok] in *.
 
 (* the (reversed) line buffer a newline or the end of input hands to appendToDoc *)
-Definition cur_lb (T : tables) (s : tstate) : list word :=
-  match obuf_rev s with [] => linebuf_rev s | _ => flush_buf T (obuf_rev s) :: linebuf_rev s end.
+Definition cur_lb (T : tables) (n : bool) (s : tstate) : list word :=
+  match obuf_rev s with [] => linebuf_rev s | _ => flush_buf T n (obuf_rev s) :: linebuf_rev s end.
 
 Definition line_toks (T : tables) (n : bool) (L : N) (lb_rev : list word) : list (word * N) :=
   match lb_rev with
@@ -284,8 +296,8 @@ Lemma step_nl_proj T n s :
   let s' := step T n s 10 in
   obuf_rev s' = [] /\ linebuf_rev s' = [] /\ line s' = line s + 1 /\
   dEOL s' = dEOL s /\ dWord s' = dWord s /\
-  toks_rev s' = (if n then [] else [([10], line s)]) ++ line_toks T n (line s) (cur_lb T s) ++ toks_rev s /\
-  matches_rev s' = line_ms T n (line s) (cur_lb T s) ++ matches_rev s.
+  toks_rev s' = (if n then [] else [([10], line s)]) ++ line_toks T n (line s) (cur_lb T n s) ++ toks_rev s /\
+  matches_rev s' = line_ms T n (line s) (cur_lb T n s) ++ matches_rev s.
 Proof.
   intros Hh. cbv zeta. unfold step, cur_lb. change (N.eqb 10 NLr) with true. cbv iota.
   destruct (obuf_rev s) as [|c ob'] eqn:Hob.
@@ -308,7 +320,7 @@ Qed.
 Lemma step_space_proj T n s r :
   r <> 10 -> obuf_rev s <> [] -> is_space T r = true -> dEOL s = false -> dWord s = false ->
   let s' := step T n s r in
-  obuf_rev s' = [] /\ linebuf_rev s' = flush_buf T (obuf_rev s) :: linebuf_rev s /\
+  obuf_rev s' = [] /\ linebuf_rev s' = flush_buf T n (obuf_rev s) :: linebuf_rev s /\
   line s' = line s /\ dEOL s' = false /\ dWord s' = false /\
   toks_rev s' = toks_rev s /\ matches_rev s' = matches_rev s.
 Proof.
@@ -355,8 +367,8 @@ Lemma step_space_dword T n s r :
   let s' := step T n s r in
   obuf_rev s' = [] /\ linebuf_rev s' = [] /\ line s' = line s + 1 /\
   dEOL s' = false /\ dWord s' = false /\
-  toks_rev s' = line_toks T n (line s) (cur_lb T s) ++ toks_rev s /\
-  matches_rev s' = line_ms T n (line s) (cur_lb T s) ++ matches_rev s.
+  toks_rev s' = line_toks T n (line s) (cur_lb T n s) ++ toks_rev s /\
+  matches_rev s' = line_ms T n (line s) (cur_lb T n s) ++ matches_rev s.
 Proof.
   intros Hr Hob Hsp He Hw. cbv zeta. unfold step, cur_lb.
   destruct (N.eqb_spec r NLr) as [E|_]; [exfalso; apply Hr; exact E|].
@@ -379,8 +391,8 @@ Proof.
 Qed.
 
 Lemma finish_proj T n s :
-  toks_rev (finish T n s) = line_toks T n (line s) (cur_lb T s) ++ toks_rev s /\
-  matches_rev (finish T n s) = line_ms T n (line s) (cur_lb T s) ++ matches_rev s.
+  toks_rev (finish T n s) = line_toks T n (line s) (cur_lb T n s) ++ toks_rev s /\
+  matches_rev (finish T n s) = line_ms T n (line s) (cur_lb T n s) ++ matches_rev s.
 Proof.
   unfold finish, cur_lb. cbv zeta. autorewrite with npf. split; reflexivity.
 Qed.
@@ -521,10 +533,14 @@ Proof.
     apply nchar_wchar, wchar_ok_inv in Hc. tauto.
 Qed.
 
-Lemma flush_lw w : word_ok T w = true -> flush_buf T (rev (lw T w)) = lw T w.
+Lemma lw_idem w : lw T (lw T w) = lw T w.
+Proof. unfold lw. rewrite map_map. apply map_ext. intro c. apply (tk_lower_idem T TK). Qed.
+
+Lemma flush_lw w : word_ok T w = true -> flush_buf T true (rev (lw T w)) = lw T w.
 Proof.
   intro H. destruct (word_ok_inv w H) as [Hs Hh]. unfold flush_buf. rewrite rev_involutive.
-  rewrite (tk_unescape T TK) by (apply shape_lw_no_amp, Hs). apply has_https_id, Hh.
+  rewrite (tk_unescape T TK) by (apply shape_lw_no_amp, Hs). cbv zeta iota.
+  change (map (to_lower T) (lw T w)) with (lw T (lw T w)). rewrite lw_idem. apply has_https_id, Hh.
 Qed.
 
 (* feeding a whole word from an empty buffer *)
@@ -661,7 +677,7 @@ Proof.
 Qed.
 
 Lemma hold_cur_lb s line_rev L acc :
-  Hold s line_rev L acc -> WordsOK line_rev -> cur_lb T s = map (lw T) line_rev.
+  Hold s line_rev L acc -> WordsOK line_rev -> cur_lb T true s = map (lw T) line_rev.
 Proof.
   intros H HW. unfold cur_lb. rewrite (h_ob _ _ _ _ H), (h_lb _ _ _ _ H).
   destruct line_rev as [|w r]; [reflexivity|]. inversion HW as [|? ? Hw _]; subst.
@@ -903,8 +919,21 @@ Inductive Orel : list rune -> list rune -> Prop :=
 | Orel_nil : Orel [] []
 | Orel_cons X c : Forall lowfix X -> Orel (X ++ [c]) (X ++ [to_lower T c]).
 
+(* all the runes of the (?i) literals of the three ignorableTexts expressions *)
+Definition ci_lits : list rune := COPYRIGHT_SP ++ PAREN_C_SP ++ YYYY ++ DATES_FIRST_PUB.
+(* ToLower does not change how the three expressions see the rune [c]: the
+   same literal runes match it, and it is in (?i)[a-z] or not, before and
+   after.  True of every rune fixed by ToLower and of every ASCII letter;
+   false for U+0130 (ToLower gives 'i', but (?i)i does not match U+0130). *)
+Definition ci_same (c : rune) : bool :=
+  forallb (fun p => Bool.eqb (ci_eq p (to_lower T c)) (ci_eq p c)) ci_lits &&
+  Bool.eqb (ci_az (to_lower T c)) (ci_az c).
+
+(* the flushed words of the two runs: the normalising run has the lower-cased
+   word of the raw run, and lower-casing is invisible to the ignorable
+   expressions except possibly on the first rune of the word *)
 Definition Wrel (wr wn : word) : Prop :=
-  exists c Z, wr = c :: Z /\ wn = to_lower T c :: Z /\ Forall lowfix Z.
+  wn = lw T wr /\ Forall (fun c => ci_same c = true) (tl wr).
 
 (* exception (c), at its source: the first rune is changed by ToLower and the
    lower-cased word starts with "https" ("Https://..", "HTTPS") *)
@@ -914,14 +943,33 @@ Definition cap_https (o : list rune) : bool :=
               match prefix_rest HTTPS (to_lower T c :: Y) with Some _ => true | None => false end
   | [] => false
   end.
-(* html.UnescapeString leaves the word alone, as written and with its first
-   rune lower-cased (true of every word without '&': [tk_unescape]) *)
 Definition lowerfirst (o : list rune) : list rune :=
   match o with c :: Y => to_lower T c :: Y | [] => [] end.
+(* html.UnescapeString leaves the word alone (true of every word without '&':
+   [tk_unescape]).  NOT required any more; kept to state that the condition
+   below is weaker than the one used before the lower-casing "fix:" of
+   flushBuf ([word_flush_ok_old]) *)
 Definition unesc_fix (o : list rune) : bool := word_eqb (unescape T o) o.
-(* a raw-mode word buffer that may be flushed *)
+
+(* A raw-mode word buffer [o] that may be flushed.  The normalising run holds
+   [lowerfirst o].
+   (1) [unesc_first]: up to case, html.UnescapeString gives the same word
+       whether or not the first rune of the buffer was lower-cased (true of
+       the real function, which copies everything before the first '&' and
+       resolves what follows independently of it);
+   (2) [https_stable]: lower-casing the unescaped word creates no "https"
+       (normalizeToken commutes with the lower-casing);
+   (3) [ci_tail]: the non-initial runes of the flushed word look the same to
+       the ignorable expressions before and after lower-casing.
+   Nothing is asked of what html.UnescapeString produces beyond (2), (3):
+   "&#65;bc" -> "Abc" and "x&#65;y" -> "xAy" are fine. *)
+Definition unesc_first (o : list rune) : bool :=
+  word_eqb (lw T (unescape T (lowerfirst o))) (lw T (unescape T o)).
+Definition https_stable (u : word) : bool :=
+  word_eqb (normalize_token (lw T u)) (lw T (normalize_token u)).
+Definition ci_tail (w : word) : bool := forallb ci_same (tl w).
 Definition word_flush_ok (o : list rune) : bool :=
-  unesc_fix o && unesc_fix (lowerfirst o) && negb (cap_https o).
+  unesc_first o && https_stable (unescape T o) && ci_tail (normalize_token (unescape T o)).
 Definition flush_ok (ob_rev : list rune) : bool :=
   match ob_rev with [] => true | _ => word_flush_ok (rev ob_rev) end.
 (* the raw-mode run flushes only good word buffers.  A newline met with a
@@ -982,20 +1030,36 @@ Proof. induction a as [|x a IH]; [reflexivity|]. cbn [word_eqb]. rewrite N.eqb_r
 Lemma no_amp_unesc_fix o : existsb (N.eqb 38) o = false -> unesc_fix o = true.
 Proof. intro H. unfold unesc_fix. rewrite (tk_unescape T TK o H). apply word_eqb_refl. Qed.
 
+Lemma lowfix_ci_same c : lowfix c -> ci_same c = true.
+Proof.
+  intro H. unfold ci_same. rewrite H, Bool.eqb_reflx, andb_true_r.
+  apply forallb_forall. intros p _. apply Bool.eqb_reflx.
+Qed.
+
+(* the two runs flush related words *)
 Lemma flush_rel X c :
   Forall lowfix X -> flush_ok (X ++ [c]) = true ->
-  Wrel (flush_buf T (X ++ [c])) (flush_buf T (X ++ [to_lower T c])).
+  Wrel (flush_buf T false (X ++ [c])) (flush_buf T true (X ++ [to_lower T c])).
 Proof.
-  intros HX Hok.
+  intros _ Hok.
   assert (Hok' : word_flush_ok (rev (X ++ [c])) = true) by (destruct X; exact Hok).
   clear Hok. rename Hok' into Hok. unfold word_flush_ok in Hok. rewrite rev_unit in Hok.
-  apply andb_true_iff in Hok. destruct Hok as [Ha Hc]. apply andb_true_iff in Ha. destruct Ha as [Ha Ha'].
-  apply negb_true_iff in Hc. apply word_eqb_eq in Ha, Ha'. cbn [lowerfirst] in Ha'.
-  unfold flush_buf. rewrite !rev_unit.
-  assert (HY : Forall lowfix (rev X)) by (apply Forall_rev; exact HX).
-  set (Y := rev X) in *.
-  rewrite Ha, Ha'.
-  unfold normalize_token. rewrite !replace_cons0.
+  apply andb_true_iff in Hok. destruct Hok as [Ha Hc]. apply andb_true_iff in Ha. destruct Ha as [Ha Hb].
+  unfold unesc_first in Ha. unfold https_stable in Hb. apply word_eqb_eq in Ha, Hb. cbn [lowerfirst] in Ha.
+  unfold flush_buf. rewrite !rev_unit. cbv zeta iota. split.
+  - unfold lw in *. rewrite Ha. exact Hb.
+  - unfold ci_tail in Hc. apply Forall_forall. rewrite forallb_forall in Hc. exact Hc.
+Qed.
+
+(* ---------- the condition used before the "fix:" implies the present one ---------- *)
+
+(* one word, its first rune lower-cased or not, through normalizeToken *)
+Lemma normalize_token_first c Y :
+  Forall lowfix Y -> cap_https (c :: Y) = false ->
+  exists c' Z, normalize_token (c :: Y) = c' :: Z /\ normalize_token (to_lower T c :: Y) = to_lower T c' :: Z /\
+               Forall lowfix Z.
+Proof.
+  intros HY Hc. unfold normalize_token. rewrite !replace_cons0.
   destruct (tk_lower_http T TK) as (Hh & Ht & Hp).
   destruct (N.eqb_spec (to_lower T c) c) as [Efix|Ene].
   - rewrite Efix. destruct (prefix_rest HTTPS (c :: Y)) as [rest|] eqn:E.
@@ -1011,19 +1075,151 @@ Proof.
     + exists c, (replace_https_aux Y 0). repeat split. apply lowfix_replace, HY.
 Qed.
 
-Lemma header_rel wr wn : Wrel wr wn -> header T wn = header T wr.
+(* a word whose non-initial runes are fixed by ToLower (as in every word buffer)
+   and that is not a capitalised "Https.." passes (2) and (3) *)
+Lemma cap_https_stable u :
+  Forall lowfix (tl u) -> cap_https u = false ->
+  https_stable u = true /\ ci_tail (normalize_token u) = true.
 Proof.
-  intros (c & Z & -> & -> & HZ). unfold header. cbn [rev].
-  destruct (rev Z) as [|e p]; cbn [app].
-  - change DOT with 46.
-    rewrite (lower_eqb c 46), (lower_eqb c 58), (lower_eqb c 41) by (cbn; tauto).
-    destruct ((c =? 46) || (c =? 58) || (c =? 41)); [|reflexivity].
-    cbn [rev map forallb]. destruct (is_list_marker T [] && negb (c =? 41)); reflexivity.
-  - destruct ((e =? DOT) || (e =? 58) || (e =? 41)); [|reflexivity].
-    rewrite !rev_unit. cbn [map]. rewrite (tk_lower_idem T TK).
-    rewrite !forallb_app. cbn [forallb]. change DOT with 46.
-    rewrite (tk_lower_digit T TK), (lower_eqb c 46) by (cbn; tauto). reflexivity.
+  intros HY Hc. destruct u as [|c Y]; [split; reflexivity|]. cbn [tl] in HY.
+  destruct (normalize_token_first c Y HY Hc) as (c' & Z & E1 & E2 & HZ).
+  unfold https_stable, ci_tail, lw. cbn [map]. rewrite (map_lowfix Y HY), E1, E2. cbn [map tl].
+  rewrite (map_lowfix Z HZ). split; [apply word_eqb_refl|].
+  apply forallb_forall. rewrite Forall_forall in HZ. intros x Hx. apply lowfix_ci_same, HZ, Hx.
 Qed.
+
+(* [word_flush_ok] is implied by the condition this file used before flushBuf
+   lower-cased what html.UnescapeString produced (unescaping had to leave the
+   word alone) *)
+Lemma word_flush_ok_old o :
+  Forall lowfix (tl o) ->
+  unesc_fix o = true -> unesc_fix (lowerfirst o) = true -> cap_https o = false ->
+  word_flush_ok o = true.
+Proof.
+  intros HY H1 H2 Hc. apply word_eqb_eq in H1, H2.
+  unfold word_flush_ok, unesc_first. rewrite H1, H2.
+  destruct (cap_https_stable o HY Hc) as [-> ->]. rewrite !andb_true_r.
+  destruct o as [|c Y]; [reflexivity|]. unfold lw. cbn [lowerfirst map].
+  rewrite (tk_lower_idem T TK). apply word_eqb_refl.
+Qed.
+
+(* ... and so is the run predicate: [flushes_ok_v1] is [flushes_ok] as it was
+   before the "fix:" (html.UnescapeString had to leave every flushed word
+   alone).  Every raw-mode word buffer has all its runes but the first fixed
+   by ToLower ([step_tail_low]). *)
+Definition word_flush_ok_v1 (o : list rune) : bool :=
+  unesc_fix o && unesc_fix (lowerfirst o) && negb (cap_https o).
+Definition flush_ok_v1 (ob_rev : list rune) : bool :=
+  match ob_rev with [] => true | _ => word_flush_ok_v1 (rev ob_rev) end.
+Definition step_ok_v1 (s : tstate) (r : rune) : bool :=
+  if N.eqb r 10 then hd_hyphen (obuf_rev s) || flush_ok_v1 (obuf_rev s)
+  else if is_space T r then dEOL s || flush_ok_v1 (obuf_rev s) else true.
+Fixpoint flushes_ok_v1 (s : tstate) (rs : list rune) : bool :=
+  match rs with
+  | [] => flush_ok_v1 (obuf_rev s)
+  | r :: rs' => step_ok_v1 s r && flushes_ok_v1 (step T false s r) rs'
+  end.
+
+Definition ob_tail_low (ob_rev : list rune) : Prop := Forall lowfix (tl (rev ob_rev)).
+
+Lemma flush_ok_old ob : ob_tail_low ob -> flush_ok_v1 ob = true -> flush_ok ob = true.
+Proof.
+  intros HI H. destruct ob as [|c ob']; [reflexivity|].
+  unfold flush_ok_v1, word_flush_ok_v1 in H. unfold flush_ok.
+  apply andb_true_iff in H. destruct H as [H H3]. apply andb_true_iff in H. destruct H as [H1 H2].
+  apply negb_true_iff in H3. apply word_flush_ok_old; assumption.
+Qed.
+
+Lemma tail_low_app L ob : ob <> [] -> Forall lowfix L -> ob_tail_low ob -> ob_tail_low (L ++ ob).
+Proof.
+  unfold ob_tail_low. intros Hne HL HI. rewrite rev_app_distr. destruct (rev ob) as [|x l] eqn:E.
+  - exfalso. apply Hne. apply (f_equal (@rev _)) in E. rewrite rev_involutive in E. exact E.
+  - cbn [app tl] in *. apply Forall_app. split; [exact HI|apply Forall_rev, HL].
+Qed.
+
+Lemma tail_low_tl ob : ob_tail_low ob -> ob_tail_low (tl ob).
+Proof.
+  destruct ob as [|c ob']; [trivial|]. unfold ob_tail_low. cbn [tl rev].
+  destruct (rev ob') as [|x l]; [constructor|]. cbn [app tl]. intro H. apply Forall_app in H. tauto.
+Qed.
+
+Lemma step_tail_low s r : ob_tail_low (obuf_rev s) -> ob_tail_low (obuf_rev (step T false s r)).
+Proof.
+  intro HI. destruct (N.eqb_spec r 10) as [->|Hr].
+  - destruct (hd_hyphen (obuf_rev s)) eqn:Hh.
+    + rewrite (step_nl_hyph T false s Hh). fields. apply tail_low_tl, HI.
+    + destruct (step_nl_proj T false s Hh) as (P1 & _). rewrite P1. exact (Forall_nil _).
+  - destruct (obuf_rev s) as [|a o] eqn:Eo.
+    + rewrite (step_start T false s r Hr Eo).
+      destruct (starts_word T r); fields; [|rewrite Eo]; exact (Forall_nil _).
+    + assert (N1 : obuf_rev s <> []) by (rewrite Eo; discriminate). rewrite <- Eo in HI.
+      destruct (is_space T r) eqn:Hsp.
+      * destruct (dEOL s) eqn:He; [rewrite (step_space_deol T false s r Hr N1 Hsp He); exact HI|].
+        destruct (dWord s) eqn:Hw.
+        -- destruct (step_space_dword T false s r Hr N1 Hsp He Hw) as (P1 & _). rewrite P1. exact (Forall_nil _).
+        -- destruct (step_space_proj T false s r Hr N1 Hsp He Hw) as (P1 & _). rewrite P1. exact (Forall_nil _).
+      * rewrite (step_char_gen T false s r Hr N1 Hsp). fields.
+        apply tail_low_app; [exact N1| |exact HI].
+        destruct (punct_map T r) as [rep|].
+        -- apply Forall_rev. apply Forall_map. apply Forall_forall. intros x _. apply lowfix_lower.
+        -- constructor; [apply lowfix_lower|constructor].
+Qed.
+
+Theorem flushes_ok_old rs : forall s,
+  ob_tail_low (obuf_rev s) -> flushes_ok_v1 s rs = true -> flushes_ok s rs = true.
+Proof.
+  induction rs as [|r rs IH]; intros s HI H; cbn [flushes_ok flushes_ok_v1] in *.
+  - apply flush_ok_old; assumption.
+  - apply andb_true_iff in H. destruct H as [H1 H2]. apply andb_true_iff. split.
+    + unfold step_ok_v1 in H1. unfold step_ok. destruct (r =? 10).
+      * apply orb_true_iff in H1. apply orb_true_iff. destruct H1 as [H1|H1]; [left; exact H1|right].
+        apply flush_ok_old; assumption.
+      * destruct (is_space T r); [|reflexivity].
+        apply orb_true_iff in H1. apply orb_true_iff. destruct H1 as [H1|H1]; [left; exact H1|right].
+        apply flush_ok_old; assumption.
+    + apply IH; [apply step_tail_low, HI|exact H2].
+Qed.
+
+Lemma lower_letter_map w : filter (is_letter T) (lw T w) = lw T (filter (is_letter T) w).
+Proof.
+  unfold lw. induction w as [|c w IH]; [reflexivity|]. cbn [map filter].
+  rewrite (tk_lower_letter T TK). destruct (is_letter T c); cbn [map]; rewrite IH; reflexivity.
+Qed.
+
+Lemma nchar_lower c : nchar T (to_lower T c) = nchar T c.
+Proof.
+  unfold nchar. change DOT with 46. change HYPHEN with 45.
+  rewrite (tk_lower_digit T TK), (lower_eqb c 46), (lower_eqb c 45) by (cbn; tauto). reflexivity.
+Qed.
+
+Lemma lower_nchar_map w : filter (nchar T) (lw T w) = filter (nchar T) w.
+Proof.
+  unfold lw. induction w as [|c w IH]; [reflexivity|]. cbn [map filter].
+  rewrite nchar_lower. destruct (nchar T c) eqn:E; [|exact IH].
+  rewrite (nchar_fix c E), IH. reflexivity.
+Qed.
+
+Lemma forallb_lw (f : rune -> bool) w :
+  (forall c, f (to_lower T c) = f c) -> forallb f (lw T w) = forallb f w.
+Proof.
+  intro Hf. unfold lw. induction w as [|c w IH]; [reflexivity|]. cbn [map forallb]. rewrite Hf, IH. reflexivity.
+Qed.
+
+Lemma header_lw w : header T (lw T w) = header T w.
+Proof.
+  unfold header, lw. rewrite <- map_rev. destruct (rev w) as [|e p]; [reflexivity|]. cbn [map].
+  change DOT with 46.
+  rewrite (lower_eqb e 46), (lower_eqb e 58), (lower_eqb e 41) by (cbn; tauto).
+  destruct ((e =? 46) || (e =? 58) || (e =? 41)); [|reflexivity].
+  rewrite <- map_rev. change (map (to_lower T) (map (to_lower T) (rev p))) with (lw T (lw T (rev p))).
+  rewrite lw_idem. change (map (to_lower T) p) with (lw T p).
+  rewrite (forallb_lw (fun r => is_digit T r || (r =? 46)) p).
+  - reflexivity.
+  - intro c. rewrite (tk_lower_digit T TK), (lower_eqb c 46) by (cbn; tauto). reflexivity.
+Qed.
+
+Lemma header_rel wr wn : Wrel wr wn -> header T wn = header T wr.
+Proof. intros [-> _]. apply header_lw. Qed.
 
 Lemma strip_snoc l c :
   strip_trailing_dots_rev (l ++ [c]) = [] \/ exists X, strip_trailing_dots_rev (l ++ [c]) = X ++ [c].
@@ -1041,6 +1237,12 @@ Proof. intro H. apply (tk_digit_ok T TK), wchar_ok_inv in H. tauto. Qed.
 Lemma is_eol_cons_false c l : c <> 10 -> is_eol (c :: l) = false.
 Proof. intro H. cbn [is_eol]. destruct l; [apply N.eqb_neq, H|reflexivity]. Qed.
 
+Lemma first_is_number_lw w : first_is_number T (lw T w) = first_is_number T w.
+Proof.
+  destruct w as [|c Z]; [reflexivity|]. unfold lw. cbn [map first_is_number].
+  rewrite (tk_lower_letter T TK), (tk_lower_digit T TK). reflexivity.
+Qed.
+
 (* the heart of Part B: one flushed word, cleaned in both modes *)
 Lemma cleanup_rel first wr wn :
   Wrel wr wn ->
@@ -1048,34 +1250,35 @@ Lemma cleanup_rel first wr wn :
   (cleanup_token T first wr false <> [] /\ is_eol (cleanup_token T first wr false) = false /\
    cleanup_token T first wn true = norm_word T (cleanup_token T first wr false)).
 Proof.
-  intro HR. pose proof (header_rel wr wn HR) as Hhd.
-  destruct HR as (c & Z & -> & -> & HZ). unfold cleanup_token. rewrite Hhd.
-  destruct (first && header T (c :: Z)); [left; split; reflexivity|].
-  rewrite (tk_lower_letter T TK), (tk_lower_digit T TK).
-  destruct (negb (is_letter T c) && is_digit T c) eqn:Hn.
-  - apply andb_true_iff in Hn. destruct Hn as [Hnl Hd]. rewrite (tk_digit_fix T TK c Hd).
-    cbn [filter]. rewrite Hd. cbn [orb rev].
-    destruct (strip_snoc (rev (filter (fun c0 => is_digit T c0 || (c0 =? DOT) || (c0 =? HYPHEN)) Z)) c)
-      as [E|[X E]]; rewrite E.
+  intros [-> _]. unfold cleanup_token. rewrite header_lw.
+  destruct (first && header T wr); [left; split; reflexivity|].
+  change (filter (fun c => is_digit T c || (c =? DOT) || (c =? HYPHEN)) (lw T wr))
+    with (filter (nchar T) (lw T wr)).
+  change (filter (fun c => is_digit T c || (c =? DOT) || (c =? HYPHEN)) wr) with (filter (nchar T) wr).
+  rewrite lower_nchar_map, lower_letter_map.
+  change (match lw T wr with r :: _ => negb (is_letter T r) && is_digit T r | [] => false end)
+    with (first_is_number T (lw T wr)).
+  change (match wr with r :: _ => negb (is_letter T r) && is_digit T r | [] => false end)
+    with (first_is_number T wr).
+  rewrite first_is_number_lw.
+  fold (ichg T (lw T (filter (is_letter T) wr))).
+  destruct (first_is_number T wr) eqn:Hn.
+  - destruct wr as [|c Z]; [discriminate|]. cbn [first_is_number] in Hn.
+    apply andb_true_iff in Hn. destruct Hn as [Hnl Hd].
+    assert (Hc : nchar T c = true) by (unfold nchar; rewrite Hd; reflexivity).
+    cbn [filter]. rewrite Hc. cbn [rev].
+    destruct (strip_snoc (rev (filter (nchar T) Z)) c) as [E|[X E]]; rewrite E.
     + left. split; reflexivity.
     + right. rewrite rev_unit. split; [discriminate|]. split.
       * apply is_eol_cons_false, digit_not_nl, Hd.
       * unfold norm_word. cbn [first_is_number]. rewrite Hnl, Hd. reflexivity.
-  - cbn [filter]. rewrite (tk_lower_letter T TK).
-    assert (HF : Forall lowfix (filter (is_letter T) Z)) by (apply Forall_filter, HZ).
-    assert (HL : Forall (fun x => is_letter T x = true) (filter (is_letter T) Z)).
+  - assert (HL : Forall (fun x => is_letter T x = true) (filter (is_letter T) wr)).
     { apply Forall_forall. intros x Hx. apply filter_In in Hx. tauto. }
-    set (F := filter (is_letter T) Z) in *.
-    destruct (is_letter T c) eqn:Hl.
-    + right. split; [discriminate|]. split; [apply is_eol_cons_false, letter_not_nl, Hl|].
-      unfold norm_word. cbn [first_is_number]. rewrite Hl. cbn [negb andb].
-      unfold lw. cbn [map]. rewrite (map_lowfix F HF). reflexivity.
-    + destruct F as [|f F'].
-      * left. split; [reflexivity|]. rewrite (tk_ichg_nil T TK). reflexivity.
-      * right. inversion HL as [|? ? Hf _]; subst. split; [discriminate|].
-        split; [apply is_eol_cons_false, letter_not_nl, Hf|].
-        unfold norm_word. cbn [first_is_number]. rewrite Hf. cbn [negb andb].
-        unfold lw. rewrite (map_lowfix _ HF). reflexivity.
+    destruct (filter (is_letter T) wr) as [|f F'].
+    + left. split; [reflexivity|]. unfold ichg. cbn [lw map]. rewrite (tk_ichg_nil T TK). reflexivity.
+    + right. inversion HL as [|? ? Hf _]; subst. split; [discriminate|].
+      split; [apply is_eol_cons_false, letter_not_nl, Hf|].
+      unfold norm_word. cbn [first_is_number]. rewrite Hf. reflexivity.
 Qed.
 
 Lemma clean_go_rel ws1 ws2 :
@@ -1109,105 +1312,151 @@ Qed.
 
 (* ---------- the ignorable-notice decision is the same in both modes ---------- *)
 
-(* two runes at the same position of the texts the expressions see *)
-Definition Crel (c1 c2 : rune) : Prop := c2 = c1 \/ c2 = to_lower T c1.
+(* the texts the expressions see in the two modes: equal rune for rune, except
+   possibly (flag [b] for the first position) right after a blank or at the
+   start, where the second text may have the lower-cased rune *)
+(* two runes at the same position: equal, or the second is the lower-cased
+   first and the position is word-initial ([b]) or the rune is [ci_same] *)
+Definition Crel (b : bool) (c1 c2 : rune) : Prop :=
+  c2 = c1 \/ ((b = true \/ ci_same c1 = true) /\ c2 = to_lower T c1).
 
-Lemma Crel_refl c : Crel c c.
-Proof. left. reflexivity. Qed.
+Inductive Trel : bool -> list rune -> list rune -> Prop :=
+| Trel_nil b : Trel b [] []
+| Trel_cons b c1 c2 r1 r2 :
+    Crel b c1 c2 -> Trel (N.eqb c1 32) r1 r2 -> Trel b (c1 :: r1) (c2 :: r2).
 
-Lemma Crel_list_refl l : Forall2 Crel l l.
-Proof. induction l; constructor; [apply Crel_refl|assumption]. Qed.
+Lemma Trel_refl l : forall b, Trel b l l.
+Proof. induction l as [|c l IH]; intro b; constructor; [left; reflexivity|apply IH]. Qed.
 
-Lemma Crel_ci p c1 c2 : In p pat_runes -> Crel c1 c2 -> ci_eq p c2 = ci_eq p c1.
-Proof. intros Hp [->| ->]; [reflexivity|apply (tk_lower_ci T TK), Hp]. Qed.
-Lemma Crel_adigit c1 c2 : Crel c1 c2 -> ascii_digit c2 = ascii_digit c1.
-Proof. intros [->| ->]; [reflexivity|apply (tk_lower_adigit T TK)]. Qed.
-Lemma Crel_az c1 c2 : Crel c1 c2 -> ci_az c2 = ci_az c1.
-Proof. intros [->| ->]; [reflexivity|apply (tk_lower_az T TK)]. Qed.
-Lemma Crel_eqb k c1 c2 : In k [10; 38; 41; 45; 46; 58] -> Crel c1 c2 -> N.eqb c2 k = N.eqb c1 k.
-Proof. intros Hk [->| ->]; [reflexivity|apply lower_eqb, Hk]. Qed.
+Lemma Trel_weaken b l1 l2 : Trel b l1 l2 -> Trel true l1 l2.
+Proof.
+  intros [|b' c1 c2 r1 r2 Hc Hr]; constructor; [|exact Hr].
+  destruct Hc as [->|[_ ->]]; [left; reflexivity|right; split; [left; reflexivity|reflexivity]].
+Qed.
+
+(* a word all of whose runes are [ci_same], against its lower-casing *)
+Lemma Trel_ci_same l : Forall (fun c => ci_same c = true) l -> forall b, Trel b l (lw T l).
+Proof.
+  induction 1 as [|c l Hc _ IH]; intro b; [constructor|]. unfold lw. cbn [map].
+  constructor; [right; split; [right; exact Hc|reflexivity]|apply IH].
+Qed.
+
+Lemma Trel_adigit b c1 c2 : Crel b c1 c2 -> ascii_digit c2 = ascii_digit c1.
+Proof. intros [->|[_ ->]]; [reflexivity|apply (tk_lower_adigit T TK)]. Qed.
+Lemma Trel_eqb k b c1 c2 :
+  In k [10; 38; 41; 45; 46; 58] -> Crel b c1 c2 -> N.eqb c2 k = N.eqb c1 k.
+Proof. intros Hk [->|[_ ->]]; [reflexivity|apply lower_eqb, Hk]. Qed.
+Lemma Crel_az c1 c2 : Crel false c1 c2 -> ci_az c2 = ci_az c1.
+Proof.
+  intros [->|[[Hb|Hs] ->]]; [reflexivity|discriminate|].
+  unfold ci_same in Hs. apply andb_true_iff in Hs. apply Bool.eqb_prop, (proj2 Hs).
+Qed.
 
 Definition opt_rel (o1 o2 : option (list rune)) : Prop :=
   match o1, o2 with
-  | Some r1, Some r2 => Forall2 Crel r1 r2
+  | Some r1, Some r2 => Trel true r1 r2
   | None, None => True
   | _, _ => False
   end.
 
-Lemma ci_prefix_rel pat : (forall p, In p pat -> In p pat_runes) ->
-  forall l1 l2, Forall2 Crel l1 l2 -> opt_rel (ci_prefix_rest pat l1) (ci_prefix_rest pat l2).
+(* every rune of the literal that stands first (if [a]) or after a blank is in
+   [init_runes]; every rune of the literal is in [ci_lits] *)
+Fixpoint pat_chk (a : bool) (pat : list rune) : bool :=
+  match pat with
+  | [] => true
+  | p :: q => (if a then existsb (N.eqb p) init_runes else true) && existsb (N.eqb p) ci_lits &&
+              pat_chk (N.eqb p 32) q
+  end.
+
+Lemma ci_eq_space p : ci_eq p 32 = true -> p = 32.
 Proof.
-  induction pat as [|p pat IH]; intros Hp l1 l2 HL; [exact HL|].
-  destruct HL as [|c1 c2 l1 l2 Hc HL]; [exact I|]. cbn [ci_prefix_rest].
-  rewrite (Crel_ci p c1 c2 (Hp p (or_introl eq_refl)) Hc).
-  destruct (ci_eq p c1); [|exact I]. apply IH; [|exact HL].
-  intros q Hq. apply Hp. right. exact Hq.
+  unfold ci_eq, ascii_lower. destruct ((97 <=? p) && (p <=? 122)) eqn:E.
+  - apply andb_true_iff in E. destruct E as [E1 E2]. apply N.leb_le in E1, E2.
+    rewrite !orb_true_iff, !andb_true_iff, !N.eqb_eq. intros [[[H|H]|[_ H]]|[_ H]]; lia.
+  - intro H. apply N.eqb_eq in H. symmetry. exact H.
 Qed.
 
-Lemma digits_rel n : forall l1 l2, Forall2 Crel l1 l2 -> opt_rel (digits_rest n l1) (digits_rest n l2).
+Lemma ci_prefix_rel pat : forall a b l1 l2,
+  pat_chk a pat = true -> (b = true -> a = true) -> Trel b l1 l2 ->
+  opt_rel (ci_prefix_rest pat l1) (ci_prefix_rest pat l2).
 Proof.
-  induction n as [|n IH]; intros l1 l2 HL; [exact HL|].
-  destruct HL as [|c1 c2 l1 l2 Hc HL]; [exact I|].
-  change (digits_rest (S n) (c1 :: l1)) with (if ascii_digit c1 then digits_rest n l1 else None).
-  change (digits_rest (S n) (c2 :: l2)) with (if ascii_digit c2 then digits_rest n l2 else None).
-  rewrite (Crel_adigit c1 c2 Hc). destruct (ascii_digit c1); [|exact I]. apply IH, HL.
+  induction pat as [|p pat IH]; intros a b l1 l2 Hp Hba HL.
+  - cbn [ci_prefix_rest opt_rel]. exact (Trel_weaken _ _ _ HL).
+  - destruct HL as [|b c1 c2 r1 r2 Hc Hr]; [exact I|]. cbn [ci_prefix_rest pat_chk] in *.
+    apply andb_true_iff in Hp. destruct Hp as [Hp1 Hp2].
+    apply andb_true_iff in Hp1. destruct Hp1 as [Hp1 Hp3].
+    assert (E : ci_eq p c2 = ci_eq p c1).
+    { destruct Hc as [->|[[Hb|Hs] ->]]; [reflexivity| |].
+      - rewrite (Hba Hb) in Hp1.
+        apply (tk_lower_ci T TK). apply existsb_exists in Hp1. destruct Hp1 as (q & Hq & Eq).
+        apply N.eqb_eq in Eq. subst q. exact Hq.
+      - unfold ci_same in Hs. apply andb_true_iff in Hs. destruct Hs as [Hs _].
+        rewrite forallb_forall in Hs. apply Bool.eqb_prop, Hs.
+        apply existsb_exists in Hp3. destruct Hp3 as (q & Hq & Eq).
+        apply N.eqb_eq in Eq. subst q. exact Hq. }
+    rewrite E. destruct (ci_eq p c1) eqn:Ec; [|exact I].
+    apply (IH (N.eqb p 32) (N.eqb c1 32)); [exact Hp2| |exact Hr].
+    intro H32. apply N.eqb_eq in H32. subst c1. apply ci_eq_space in Ec. subst p. reflexivity.
 Qed.
 
-Lemma no_nl_rel l1 l2 : Forall2 Crel l1 l2 -> no_nl l1 = no_nl l2.
+Lemma digits_rel n : forall b l1 l2, Trel b l1 l2 -> opt_rel (digits_rest n l1) (digits_rest n l2).
 Proof.
-  unfold no_nl. change NLr with 10. induction 1 as [|c1 c2 l1 l2 Hc _ IH]; [reflexivity|]. cbn [forallb].
-  rewrite (Crel_eqb 10 c1 c2) by (cbn; tauto || exact Hc). rewrite IH. reflexivity.
+  induction n as [|n IH]; intros b l1 l2 HL; [exact (Trel_weaken _ _ _ HL)|].
+  destruct HL as [|b c1 c2 r1 r2 Hc Hr]; [exact I|].
+  change (digits_rest (S n) (c1 :: r1)) with (if ascii_digit c1 then digits_rest n r1 else None).
+  change (digits_rest (S n) (c2 :: r2)) with (if ascii_digit c2 then digits_rest n r2 else None).
+  rewrite (Trel_adigit b c1 c2 Hc). destruct (ascii_digit c1); [|exact I]. exact (IH _ _ _ Hr).
 Qed.
 
-Definition pat_ok (pat : list rune) : bool := forallb (fun p => existsb (N.eqb p) pat_runes) pat.
-Lemma pat_ok_incl pat : pat_ok pat = true -> forall p, In p pat -> In p pat_runes.
+Lemma no_nl_rel b l1 l2 : Trel b l1 l2 -> no_nl l1 = no_nl l2.
 Proof.
-  unfold pat_ok. rewrite forallb_forall. intros H p Hp. apply H in Hp.
-  apply existsb_exists in Hp. destruct Hp as (q & Hq & E). apply N.eqb_eq in E. subst q. exact Hq.
+  unfold no_nl. change NLr with 10. induction 1 as [|b c1 c2 r1 r2 Hc _ IH]; [reflexivity|]. cbn [forallb].
+  rewrite (Trel_eqb 10 b c1 c2) by (cbn; tauto || exact Hc). rewrite IH. reflexivity.
 Qed.
 
-Lemma year_tail_rel l1 l2 : Forall2 Crel l1 l2 -> year_tail l1 = year_tail l2.
+Lemma year_tail_rel b l1 l2 : Trel b l1 l2 -> year_tail l1 = year_tail l2.
 Proof.
   intro HL. unfold year_tail.
-  pose proof (ci_prefix_rel YYYY (pat_ok_incl YYYY eq_refl) l1 l2 HL) as H1.
+  pose proof (ci_prefix_rel YYYY true b l1 l2 eq_refl (fun _ => eq_refl) HL) as H1.
   destruct (ci_prefix_rest YYYY l1), (ci_prefix_rest YYYY l2); cbn [opt_rel] in H1; try contradiction.
-  - apply no_nl_rel, H1.
-  - pose proof (digits_rel 4 l1 l2 HL) as H2.
+  - exact (no_nl_rel _ _ _ H1).
+  - pose proof (digits_rel 4 b l1 l2 HL) as H2.
     destruct (digits_rest 4 l1), (digits_rest 4 l2); cbn [opt_rel] in H2; try contradiction.
-    + apply no_nl_rel, H2.
+    + exact (no_nl_rel _ _ _ H2).
     + reflexivity.
 Qed.
 
-Lemma re1_rel l1 l2 : Forall2 Crel l1 l2 -> re1_body l1 = re1_body l2.
+Lemma re1_rel b l1 l2 : Trel b l1 l2 -> re1_body l1 = re1_body l2.
 Proof.
   intro HL. unfold re1_body.
-  pose proof (ci_prefix_rel COPYRIGHT_SP (pat_ok_incl COPYRIGHT_SP eq_refl) l1 l2 HL) as H1.
+  pose proof (ci_prefix_rel COPYRIGHT_SP true b l1 l2 eq_refl (fun _ => eq_refl) HL) as H1.
   destruct (ci_prefix_rest COPYRIGHT_SP l1) as [r1|], (ci_prefix_rest COPYRIGHT_SP l2) as [r2|];
     cbn [opt_rel] in H1; try contradiction; [|reflexivity].
-  rewrite (year_tail_rel r1 r2 H1). f_equal.
-  pose proof (ci_prefix_rel PAREN_C_SP (pat_ok_incl PAREN_C_SP eq_refl) r1 r2 H1) as H2.
+  rewrite (year_tail_rel true r1 r2 H1). f_equal.
+  pose proof (ci_prefix_rel PAREN_C_SP true true r1 r2 eq_refl (fun _ => eq_refl) H1) as H2.
   destruct (ci_prefix_rest PAREN_C_SP r1), (ci_prefix_rest PAREN_C_SP r2);
     cbn [opt_rel] in H2; try contradiction; [|reflexivity].
-  apply year_tail_rel, H2.
+  exact (year_tail_rel _ _ _ H2).
 Qed.
 
-Lemma re2_rel l1 l2 : Forall2 Crel l1 l2 -> re2_body l1 = re2_body l2.
+Lemma re2_rel b l1 l2 : Trel b l1 l2 -> re2_body l1 = re2_body l2.
 Proof.
   intro HL. unfold re2_body.
-  pose proof (ci_prefix_rel DATES_FIRST_PUB (pat_ok_incl DATES_FIRST_PUB eq_refl) l1 l2 HL) as H1.
+  pose proof (ci_prefix_rel DATES_FIRST_PUB true b l1 l2 eq_refl (fun _ => eq_refl) HL) as H1.
   destruct (ci_prefix_rest DATES_FIRST_PUB l1), (ci_prefix_rest DATES_FIRST_PUB l2);
     cbn [opt_rel] in H1; try contradiction; [|reflexivity].
-  apply no_nl_rel, H1.
+  exact (no_nl_rel _ _ _ H1).
 Qed.
 
 Lemma with_prefix_rel body :
-  (forall l1 l2, Forall2 Crel l1 l2 -> body l1 = body l2) ->
-  forall k l1 l2, Forall2 Crel l1 l2 -> with_prefix body k l1 = with_prefix body k l2.
+  (forall b l1 l2, Trel b l1 l2 -> body l1 = body l2) ->
+  forall k b l1 l2, Trel b l1 l2 -> with_prefix body k l1 = with_prefix body k l2.
 Proof.
-  intros Hb. induction k as [|k IH]; intros l1 l2 HL; cbn [with_prefix]; rewrite (Hb l1 l2 HL); [reflexivity|].
-  f_equal. destruct HL as [|c1 c2 l1 l2 Hc HL]; [reflexivity|].
-  change NLr with 10. rewrite (Crel_eqb 10 c1 c2) by (cbn; tauto || exact Hc).
-  rewrite (IH l1 l2 HL). reflexivity.
+  intros Hb. induction k as [|k IH]; intros b l1 l2 HL; cbn [with_prefix]; rewrite (Hb b l1 l2 HL);
+    [reflexivity|].
+  f_equal. destruct HL as [|b c1 c2 r1 r2 Hc Hr]; [reflexivity|].
+  change NLr with 10. rewrite (Trel_eqb 10 b c1 c2) by (cbn; tauto || exact Hc).
+  rewrite (IH _ r1 r2 Hr). reflexivity.
 Qed.
 
 (* the date expression, staged *)
@@ -1233,63 +1482,81 @@ Lemma re3_staged l :
           end.
 Proof. reflexivity. Qed.
 
-Lemma re3_mid_rel r1 r2 : Forall2 Crel r1 r2 -> opt_rel (re3_mid r1) (re3_mid r2).
+(* after the '-' the month letters are not word-initial: they are equal *)
+Lemma re3_mid_rel r1 r2 : Trel false r1 r2 -> opt_rel (re3_mid r1) (re3_mid r2).
 Proof.
-  intro HL. unfold re3_mid. pose proof (digits_rel 2 r1 r2 HL) as H1.
+  intro HL. unfold re3_mid. pose proof (digits_rel 2 false r1 r2 HL) as H1.
   destruct (digits_rest 2 r1), (digits_rest 2 r2); cbn [opt_rel] in H1; try contradiction; [exact H1|].
-  destruct HL as [|a1 a2 ? ? Ha HL]; [exact I|].
-  destruct HL as [|b1 b2 ? ? Hb HL]; [exact I|].
-  destruct HL as [|c1 c2 ? ? Hc HL]; [exact I|].
-  rewrite (Crel_az _ _ Ha), (Crel_az _ _ Hb), (Crel_az _ _ Hc).
-  destruct (ci_az a1 && ci_az b1 && ci_az c1); [exact HL|exact I].
+  inversion HL as [|b0 a1 a2 t1 t2 Ha HL1]; subst; [exact I|].
+  rewrite (Crel_az a1 a2 Ha).
+  inversion HL1 as [|b1 b1' b2' u1 u2 Hb HL2]; subst; [exact I|].
+  inversion HL2 as [|b2 c1' c2' v1 v2 Hc HL3]; subst; [exact I|].
+  destruct (N.eqb_spec a1 32) as [->|_]; [exact I|].
+  rewrite (Crel_az b1' b2' Hb).
+  destruct (N.eqb_spec b1' 32) as [->|_]; [rewrite !andb_false_r; exact I|].
+  rewrite (Crel_az c1' c2' Hc).
+  destruct (ci_az a1 && ci_az b1' && ci_az c1'); [exact (Trel_weaken _ _ _ HL3)|exact I].
 Qed.
 
 Lemma re3_end_rel o1 o2 : opt_rel o1 o2 -> re3_end o1 = re3_end o2.
 Proof.
   unfold re3_end. destruct o1 as [r1|], o2 as [r2|]; cbn [opt_rel]; try contradiction; [|reflexivity].
-  intros [|h1 h2 ? ? Hh HL]; [reflexivity|].
-  change HYPHEN with 45. rewrite (Crel_eqb 45 h1 h2) by (cbn; tauto || exact Hh).
+  intros HL. inversion HL as [|b h1 h2 t1 t2 Hh HL1]; subst; [reflexivity|].
+  change HYPHEN with 45. rewrite (Trel_eqb 45 true h1 h2) by (cbn; tauto || exact Hh).
   destruct (h1 =? 45); [|reflexivity].
-  pose proof (digits_rel 2 _ _ HL) as H1.
-  destruct (digits_rest 2 l) as [x|], (digits_rest 2 l') as [y|]; cbn [opt_rel] in H1; try contradiction;
+  pose proof (digits_rel 2 _ _ _ HL1) as H1.
+  destruct (digits_rest 2 t1) as [x|], (digits_rest 2 t2) as [y|]; cbn [opt_rel] in H1; try contradiction;
     [|reflexivity].
   destruct H1; reflexivity.
 Qed.
 
-Lemma re3_rel l1 l2 : Forall2 Crel l1 l2 -> re3 l1 = re3 l2.
+Lemma re3_rel b l1 l2 : Trel b l1 l2 -> re3 l1 = re3 l2.
 Proof.
-  intro HL. rewrite !re3_staged. pose proof (digits_rel 4 l1 l2 HL) as H1.
+  intro HL. rewrite !re3_staged. pose proof (digits_rel 4 b l1 l2 HL) as H1.
   destruct (digits_rest 4 l1) as [r1|], (digits_rest 4 l2) as [r2|]; cbn [opt_rel] in H1;
     try contradiction; [|reflexivity].
-  destruct H1 as [|h1 h2 r1 r2 Hh HR]; [reflexivity|].
-  change HYPHEN with 45. rewrite (Crel_eqb 45 h1 h2) by (cbn; tauto || exact Hh).
-  destruct (h1 =? 45); [|reflexivity]. apply re3_end_rel, re3_mid_rel, HR.
+  inversion H1 as [|b0 h1 h2 t1 t2 Hh HR]; subst; [reflexivity|].
+  change HYPHEN with 45. rewrite (Trel_eqb 45 true h1 h2) by (cbn; tauto || exact Hh).
+  destruct (N.eqb_spec h1 45) as [->|_]; [|reflexivity].
+  apply re3_end_rel, re3_mid_rel. exact HR.
 Qed.
 
-Lemma ignorable_rel l1 l2 : Forall2 Crel l1 l2 -> ignorable l1 = ignorable l2.
+Lemma ignorable_rel b l1 l2 : Trel b l1 l2 -> ignorable l1 = ignorable l2.
 Proof.
   intro HL. unfold ignorable.
-  rewrite (with_prefix_rel re1_body re1_rel 5 l1 l2 HL), (with_prefix_rel re2_body re2_rel 5 l1 l2 HL),
-    (re3_rel l1 l2 HL). reflexivity.
+  rewrite (with_prefix_rel re1_body re1_rel 5 b l1 l2 HL), (with_prefix_rel re2_body re2_rel 5 b l1 l2 HL),
+    (re3_rel b l1 l2 HL). reflexivity.
 Qed.
 
-Lemma Wrel_Crel w1 w2 : Wrel w1 w2 -> Forall2 Crel w1 w2.
+Lemma Wrel_Trel w1 w2 : Wrel w1 w2 -> Trel true w1 w2.
 Proof.
-  intros (c & Z & -> & -> & _). constructor; [right; reflexivity|apply Crel_list_refl].
+  intros [-> HZ]. destruct w1 as [|c Z]; [constructor|]. unfold lw. cbn [map tl] in *.
+  constructor; [right; split; [left; reflexivity|reflexivity]|apply Trel_ci_same, HZ].
 Qed.
 
-Lemma stringify_rel ws1 ws2 : Forall2 Wrel ws1 ws2 -> Forall2 Crel (stringify ws1) (stringify ws2).
+Lemma Trel_app_space b a1 a2 x y :
+  Trel b a1 a2 -> Trel true x y -> Trel b (a1 ++ 32 :: x) (a2 ++ 32 :: y).
+Proof.
+  intros Ha Hx. induction Ha as [b|b c1 c2 r1 r2 Hc Hr IH]; cbn [app].
+  - constructor; [left; reflexivity|exact Hx].
+  - constructor; [exact Hc|exact IH].
+Qed.
+
+Lemma stringify_rel ws1 ws2 : Forall2 Wrel ws1 ws2 -> Trel true (stringify ws1) (stringify ws2).
 Proof.
   induction 1 as [|w1 w2 r1 r2 Hw Hr IH]; [constructor|].
-  pose proof (Wrel_Crel _ _ Hw) as Hc.
+  pose proof (Wrel_Trel _ _ Hw) as Hc.
   destruct Hr as [|w1' w2' r1' r2' Hw' Hr'].
   - exact Hc.
   - change (stringify (w1 :: w1' :: r1')) with
         (match w1 with [] => stringify (w1' :: r1') | _ => w1 ++ [32] ++ stringify (w1' :: r1') end).
     change (stringify (w2 :: w2' :: r2')) with
         (match w2 with [] => stringify (w2' :: r2') | _ => w2 ++ [32] ++ stringify (w2' :: r2') end).
-    destruct Hw as (c & Z & -> & -> & _).
-    apply Forall2_app; [exact Hc|]. apply Forall2_app; [apply Crel_list_refl|exact IH].
+    destruct Hw as [-> HZ]. destruct w1 as [|c Z]; [exact IH|]. unfold lw in *. cbn [map app] in *.
+    change (c :: Z ++ 32 :: stringify (w1' :: r1')) with ((c :: Z) ++ 32 :: stringify (w1' :: r1')).
+    change (to_lower T c :: map (to_lower T) Z ++ 32 :: stringify (w2' :: r2'))
+      with ((to_lower T c :: map (to_lower T) Z) ++ 32 :: stringify (w2' :: r2')).
+    apply Trel_app_space; [exact Hc|exact IH].
 Qed.
 
 (* one line handed to appendToDoc in both modes *)
@@ -1302,7 +1569,7 @@ Proof.
   destruct HR as [|w1 w2 r1 r2 Hw Hr]; [split; reflexivity|].
   pose proof (Forall2_rev _ _ _ (Forall2_cons _ _ Hw Hr)) as HR'.
   unfold stringify_line_buf in *.
-  rewrite <- (ignorable_rel _ _ (stringify_rel _ _ HR')).
+  rewrite <- (ignorable_rel _ _ _ (stringify_rel _ _ HR')).
   destruct (ignorable (stringify (rev (w1 :: r1)))); [split; reflexivity|].
   split; [|reflexivity].
   rewrite !clean_line_go. destruct (clean_go_rel _ _ HR' true) as [E HE]. rewrite E.
@@ -1339,7 +1606,7 @@ Qed.
 Lemma curlb_rel s1 s2 :
   Orel (obuf_rev s1) (obuf_rev s2) -> flush_ok (obuf_rev s1) = true ->
   Forall2 Wrel (linebuf_rev s1) (linebuf_rev s2) ->
-  Forall2 Wrel (cur_lb T s1) (cur_lb T s2).
+  Forall2 Wrel (cur_lb T false s1) (cur_lb T true s2).
 Proof.
   intros HO Hok HL. unfold cur_lb. inversion HO as [E1 E2|X c HX E1 E2].
   - exact HL.
@@ -1608,15 +1875,19 @@ Proof.
   rewrite H1. apply map_ext. intros [w l]. reflexivity.
 Qed.
 
-(* words without '&' that are not a capitalised "Https.." may be flushed *)
+(* words without '&' (html.UnescapeString is not even called on them) that
+   are not a capitalised "Https.." may be flushed; [Forall lowfix (tl o)] holds
+   for every word buffer (all runes but the first are lower-cased on entry) *)
 Lemma word_flush_ok_no_amp T o :
-  tables_ok T -> existsb (N.eqb 38) o = false -> cap_https T o = false -> word_flush_ok T o = true.
+  tables_ok T -> Forall (lowfix T) (tl o) ->
+  existsb (N.eqb 38) o = false -> cap_https T o = false -> word_flush_ok T o = true.
 Proof.
-  intros TK Ha Hc. unfold word_flush_ok. rewrite Hc, (no_amp_unesc_fix T TK o Ha). cbn [negb andb].
-  rewrite andb_true_r. apply (no_amp_unesc_fix T TK). destruct o as [|c Y]; [reflexivity|].
-  cbn [lowerfirst existsb] in *. apply orb_false_iff in Ha. destruct Ha as [Ha1 Ha2].
-  rewrite Ha2, orb_false_r. rewrite N.eqb_sym, (lower_eqb T TK c 38) by (cbn; tauto).
-  rewrite N.eqb_sym. exact Ha1.
+  intros TK HY Ha Hc. apply (word_flush_ok_old T TK o HY); [| |exact Hc].
+  - apply (no_amp_unesc_fix T TK o Ha).
+  - apply (no_amp_unesc_fix T TK). destruct o as [|c Y]; [reflexivity|].
+    cbn [lowerfirst existsb] in *. apply orb_false_iff in Ha. destruct Ha as [Ha1 Ha2].
+    rewrite Ha2, orb_false_r. rewrite N.eqb_sym, (lower_eqb T TK c 38) by (cbn; tauto).
+    rewrite N.eqb_sym. exact Ha1.
 Qed.
 
 Import String.
@@ -1709,23 +1980,91 @@ Example exc_cap_https :
   c11_rhs TokWF.T1 rs <> map (normtok TokWF.T1) (filter non_eol (d_toks (tokenize_runes TokWF.T1 false rs))).
 Proof. vm_compute. repeat split; try reflexivity; discriminate. Qed.
 
-(* (e) NEW: a numeric character reference producing an upper-case letter.
-   html.UnescapeString runs after the lower-casing, so Match sees "Abc" while
-   the re-tokenised Normalize output gives "abc".  T1 with the one-entry
-   unescape table "&#65;bc" -> "Abc" (what html.UnescapeString returns). *)
+(* (e) FIXED in the code (flushBuf lower-cases what html.UnescapeString
+   produced when normalising): a numeric character reference producing an
+   upper-case letter.  Before the "fix:" Match saw "Abc" while the
+   re-tokenised Normalize output gave "abc"; now both give "abc", and the
+   hypotheses of [C11_restricted] hold for such inputs.  T1 with a small
+   unescape table (what html.UnescapeString returns for these words). *)
+Definition assoc_unescape (tbl : list (word * word)) (w : word) : word :=
+  match find (fun kv => word_eqb w (fst kv)) tbl with Some kv => snd kv | None => w end.
 Definition T1_entity : tables :=
   {| is_letter := is_letter TokWF.T1; is_digit := is_digit TokWF.T1; is_space := is_space TokWF.T1;
      to_lower := to_lower TokWF.T1; punct_map := punct_map TokWF.T1;
      is_list_marker := is_list_marker TokWF.T1; interchangeable := interchangeable TokWF.T1;
-     unescape := fun w => if existsb (N.eqb 38) w
-                          then (if word_eqb w (runes_of "&#65;bc") then runes_of "Abc" else w)
-                          else w |}.
+     unescape := assoc_unescape [(runes_of "&#65;bc", runes_of "Abc"); (runes_of "x&#65;y", runes_of "xAy");
+                                 (runes_of "&#72;ttps", runes_of "Https")] |}.
+
+Theorem tables_ok_T1_entity : tables_ok T1_entity.
+Proof.
+  destruct tables_ok_T1 as [F1 F2 F3 F4 F5 F6 F7 F8 F9 F10 F11 F12 F13 F14 F15 F16 F17 F18 F19].
+  constructor;
+    [exact F1|exact F2|exact F3|exact F4|exact F5|exact F6|exact F7|exact F8|exact F9|exact F10|exact F11
+    |exact F12|exact F13|exact F14|exact F15|exact F16| |exact F18|exact F19].
+  intros w Hw. unfold T1_entity. cbn [unescape]. unfold assoc_unescape. cbn [find fst snd].
+  repeat match goal with
+         | |- context [word_eqb w ?k] =>
+           destruct (word_eqb w k) eqn:E;
+             [apply word_eqb_eq in E; subst w; vm_compute in Hw; discriminate Hw|clear E]
+         end.
+  reflexivity.
+Qed.
+
 Example exc_e :
   let rs := runes_of "&#65;bc x" in
-  c11_hyps T1_entity rs = (false, true) /\
+  c11_hyps T1_entity rs = (true, true) /\
   c11_lhs T1_entity rs = [(runes_of "abc", 1); (runes_of "x", 1)] /\
-  c11_rhs T1_entity rs = [(runes_of "Abc", 1); (runes_of "x", 1)].
+  c11_rhs T1_entity rs = [(runes_of "abc", 1); (runes_of "x", 1)] /\
+  (* raw mode keeps the upper-case letter: Normalize writes "Abc x" *)
+  d_toks (tokenize_runes T1_entity false rs) = [(runes_of "Abc", 1); (runes_of "x", 1)] /\
+  (* the condition used before the "fix:" rejected this word *)
+  unesc_fix T1_entity (runes_of "&#65;bc") = false.
 Proof. vm_compute. repeat split; reflexivity. Qed.
+(* ... and the theorem applies to it *)
+Example exc_e_concl :
+  let rs := runes_of "&#65;bc x" in c11_lhs T1_entity rs = c11_rhs T1_entity rs.
+Proof. apply (C11_restricted T1_entity tables_ok_T1_entity); vm_compute; reflexivity. Qed.
+(* an upper-case letter produced INSIDE a word is fine as well (condition (3)
+   of [word_flush_ok] asks only that it looks the same to the ignorable
+   expressions before and after lower-casing, true of every ASCII letter) *)
+Example ent_inside_ok :
+  let rs := runes_of "a x&#65;y z" in
+  c11_hyps T1_entity rs = (true, true) /\ c11_lhs T1_entity rs = c11_rhs T1_entity rs /\
+  d_toks (tokenize_runes T1_entity false rs) = [(runes_of "a", 1); (runes_of "xAy", 1); (runes_of "z", 1)].
+Proof. vm_compute. repeat split; reflexivity. Qed.
+(* (c') through an entity: "&#72;ttps" -> "Https" is a capitalised "https",
+   condition (2) of [word_flush_ok] fails, Part B fails, the property holds *)
+Example exc_cap_https_entity :
+  let rs := runes_of "a &#72;ttps z" in
+  c11_hyps T1_entity rs = (false, false) /\ c11_lhs T1_entity rs = c11_rhs T1_entity rs /\
+  https_stable T1_entity (runes_of "Https") = false /\
+  c11_rhs T1_entity rs <> map (normtok T1_entity) (filter non_eol (d_toks (tokenize_runes T1_entity false rs))).
+Proof. vm_compute. repeat split; try reflexivity; discriminate. Qed.
+
+(* (e') what is left of (e): html.UnescapeString produces, inside a word, a
+   rune whose lower-casing the ignorable expressions can see.  T1 extended by
+   U+0130 (a letter, ToLower gives 'i', but (?i)i does not match U+0130):
+   "copyr&#304;ght 2020 foo" is a Copyright notice for Match (normalising
+   mode) but three ordinary words in raw mode.  Condition (3) of
+   [word_flush_ok] fails and so does the conclusion of Part B (the pseudo
+   matches differ); the property itself holds, through exception (a). *)
+Definition T1_dotted_I : tables :=
+  {| is_letter := fun r => (r =? 304) || is_letter TokWF.T1 r; is_digit := is_digit TokWF.T1;
+     is_space := is_space TokWF.T1;
+     to_lower := fun r => if r =? 304 then 105 else to_lower TokWF.T1 r; punct_map := punct_map TokWF.T1;
+     is_list_marker := is_list_marker TokWF.T1; interchangeable := interchangeable TokWF.T1;
+     unescape := assoc_unescape [(runes_of "copyr&#304;ght", runes_of "copyr" ++ [304] ++ runes_of "ght")] |}.
+Example exc_e_ci :
+  let rs := runes_of "copyr&#304;ght 2020 foo" in
+  c11_hyps T1_dotted_I rs = (false, false) /\
+  ci_same T1_dotted_I 304 = false /\
+  unesc_first T1_dotted_I (runes_of "copyr&#304;ght") = true /\
+  https_stable T1_dotted_I (unescape T1_dotted_I (runes_of "copyr&#304;ght")) = true /\
+  d_matches (tokenize_runes T1_dotted_I false rs) = [] /\
+  d_matches (tokenize_runes T1_dotted_I true rs) = [1] /\
+  c11_lhs T1_dotted_I rs = c11_rhs T1_dotted_I rs.
+Proof. vm_compute. repeat split; reflexivity. Qed.
+
 (* a '&' that html.UnescapeString leaves alone is fine *)
 Example amp_ok :
   let rs := runes_of "R&D AT&T x" in
@@ -1736,6 +2075,10 @@ Print Assumptions tables_ok_T0.
 Print Assumptions tables_ok_T1.
 Print Assumptions retokenize_normalized.
 Print Assumptions raw_vs_norm.
+Print Assumptions flushes_ok_old.
+Print Assumptions word_flush_ok_no_amp.
+Print Assumptions tables_ok_T1_entity.
+Print Assumptions exc_e_concl.
 Print Assumptions raw_tok_good.
 Print Assumptions raw_mono.
 Print Assumptions canon_split.
